@@ -50,6 +50,12 @@ CLAIMS = {
    design_ref="DESIGN.md §4 C12",
    note="Trusted: Coq kernel; harness/exptree.py walker; harness/c12.py. restruct's constant merging is checked by the tiling oracle only.",
    technique="Coq invariant proof of comp tiling + width theorems + differential width/tiling oracle on every rewrite path"),
+ "C02": dict(
+   category="proof",
+   text="Coq theorems (register side): the substitution lemma (instantiating a symbolic map substituted into an expression = evaluating the expression in the state seen through the map) and, by induction over programs of any length, block_map_agrees_with_stepwise_execution: for every assignment program an instruction sequence performs through the mapper API and every concrete state, the map built once and applied to the state gives each register exactly the value of step-by-step execution (reference semantics denote). Tie: random assignment programs through the real mapper on both routes, the Python reference and the Gallina model (vm_compute). Search oracle (the property's own observation): for every cpu module with semantics, every spec-derived instruction alone (deterministic sweep) and a fixed universe of instruction sequences (length 1..8, 4 aliasing/tracing settings, states respecting the no-aliasing scope): symbolic route vs stepwise route on registers and touched memory. Partial: instruction bodies are Python (compared, not proved); memory side rests on C08/C09. ISA-level divergences are keyed known findings; one mapper defect (endianness lost on symbolic big-endian loads) was repaired.",
+   design_ref="DESIGN.md §4 C02",
+   note="Trusted: Coq kernel; harness/c02.py state construction and two-route driver; exptree walker. The sequence universe is fixed (VERIF_SEED selects a block) so that the known-findings list is complete for it.",
+   technique="Coq proof of symbolic-composition = sequential execution over assignment programs + two-route differential execution of decoded instruction sequences"),
 }
 NOT_YET = {}
 def main():
